@@ -274,8 +274,11 @@ def props_of(op_name):
     return ["C04"]
 
 
-def record_traces(ctx, name, consts, n_traces, length, base=0):
+def record_traces(ctx, name, consts, n_traces, length, base=0, rec=None):
+    """rec: a judge.Recorder -- after about every fourth step a batch of lookups is answered by the real objects and
+    kept for TLC's judgement (lookups in the middle of long random histories of a larger universe)"""
     rng = random.Random(ctx.seed + 77)
+    lrng = random.Random(ctx.seed + 78)
     path = os.path.join(workdir("gtirbverif-trace-"), "traces.ndjson")
     traces = []
     with open(path, "w") as fh:
@@ -301,6 +304,8 @@ def record_traces(ctx, name, consts, n_traces, length, base=0):
                 else:
                     logged["res"] = obs
                 steps.append({"op": logged, "post": post})
+                if rec is not None and lrng.random() < 0.25:
+                    rec.record(env)
                 if op["name"] == "reload" and logged.get("res") != NONE:
                     break   # save+load of an IR that is not self-contained: outside the spec's scope from here
             traces.append(steps)
@@ -379,7 +384,13 @@ def stage_traces(ctx, name, *, n_traces, length, base=0):
     if stages.WARM:
         return
     consts = consts_of(name)
-    path, traces = record_traces(ctx, name, consts, n_traces, length, base)
+    rec = None
+    if consts["Addrs"]:
+        from . import judge
+        rec = judge.Recorder(consts, seed=ctx.seed + 5, per_step=6)
+    path, traces = record_traces(ctx, name, consts, n_traces, length, base, rec)
+    if rec is not None:
+        stages.judge_recorded(ctx, name, consts, rec)
     # binding demonstration: a copy of the first trace with one logged back pointer corrupted must be
     # rejected by TLC exactly there (otherwise the trace specification constrains nothing: exit 2)
     import copy
